@@ -239,6 +239,33 @@ func runC10(c *Ctx, r *Report) {
 				}
 			}
 		}
+		// every success return of a full decode is behind the CRC read (the two trailing bytes are part of the frame)
+		{
+			var crcCalls []ssa.CallInstruction
+			for _, ci := range allCalls(fn) {
+				if f := ci.Common().StaticCallee(); f != nil && f.Name() == "checkCRC" {
+					crcCalls = append(crcCalls, ci)
+				}
+			}
+			bad := ""
+			for _, ret := range c.successReturns(fn) {
+				rb := ret.Block()
+				behind := false
+				for _, ci := range crcCalls {
+					if ci.Block() == rb || ci.Block().Dominates(rb) {
+						behind = true
+					}
+				}
+				partial := domByBoolEdge(fn, rb, true, func(v ssa.Value) bool {
+					p, ok := v.(*ssa.Parameter)
+					return ok && (p.Name() == "headerOnly" || p.Name() == "fileIDOnly")
+				})
+				if !behind && !partial {
+					bad = c.pos(ret.Pos())
+				}
+			}
+			r.check(bad == "" && len(crcCalls) > 0, "C10-R3-exact-consumption", "decode/crc-bytes-consumed", c.pos(fn.Pos()), "every success return of a full decode is behind checkCRC, which reads the two trailing bytes", "decode returns success at "+bad+" without having read the trailing CRC: the frame is under-consumed by two bytes and the next chained file starts on them")
+		}
 		r.check(okDom, "C10-R3-exact-consumption", "decode/crc-after-data", "", "the trailing CRC is read only after decodeFileData succeeded", "checkCRC is not dominated by the success edge of decodeFileData")
 	}
 	if fn := recvFn("decoder.decodeFileData"); fn != nil {
